@@ -623,3 +623,151 @@ Proof.
     destruct (p_subject_starts _ _ _ Eg) as [G1 _]. rewrite G1.
     rewrite (p_subject_rd _ _ _ Eg K4). rewrite (rd_tail_of _ _ Ee6 C). reflexivity.
 Qed.
+
+(* ---- what a parser leaves is a suffix of what it was given *)
+Definition suffix (r l : str) : Prop := exists p, l = p ++ r.
+Lemma suffix_refl : forall l, suffix l l. Proof. intro l. exists []. reflexivity. Qed.
+Lemma suffix_trans : forall a b c, suffix a b -> suffix b c -> suffix a c.
+Proof. intros a b c [p H1] [q H2]. subst. exists (q ++ p). rewrite app_assoc. reflexivity. Qed.
+Lemma suffix_cons : forall c r l, suffix r l -> suffix r (c :: l).
+Proof. intros c r l [p H]. subst. exists (c :: p). reflexivity. Qed.
+Lemma suffix_tl : forall r l, suffix r (tl l) -> suffix r l.
+Proof. intros r [|c l] H; [exact H|apply suffix_cons; exact H]. Qed.
+
+Lemma skip_ws_suffix : forall l, suffix (skip_ws l) l.
+Proof.
+  induction l as [|c l IH]; [apply suffix_refl|]. simpl. destruct (is_ws c); [apply suffix_cons; exact IH|apply suffix_refl].
+Qed.
+Lemma drop_to_eol_suffix : forall l, suffix (drop_to_eol l) l.
+Proof.
+  induction l as [|c l IH]; [apply suffix_refl|]. simpl. destruct (is_eol c); [apply suffix_refl|apply suffix_cons; exact IH].
+Qed.
+Lemma skip_comment_suffix : forall l, suffix (skip_comment l) l.
+Proof.
+  intro l. unfold skip_comment. destruct (starts_with 35 (skip_ws l)).
+  - eapply suffix_trans; [apply drop_to_eol_suffix|apply skip_ws_suffix].
+  - apply skip_ws_suffix.
+Qed.
+
+Lemma p_iriref_suffix : forall l v r, p_iriref l = Some (v, r) -> suffix r l.
+Proof.
+  intros l v r H. destruct l as [|c l]; [discriminate|]. unfold p_iriref in H.
+  destruct (c =? 60); [|discriminate]. unfold p_iri_tail in H.
+  destruct (iri_body (S (length l)) l) as [[v' r']|] eqn:Eb; [|discriminate].
+  destruct (has_scheme v'); [|discriminate]. inversion H; subst.
+  destruct (iri_body_raw _ _ _ _ Eb) as [raw [H1 _]]. subst l.
+  exists (c :: raw ++ [62]). cbn [app]. rewrite <- app_assoc. reflexivity.
+Qed.
+Lemma p_bnode_suffix : forall l v r, p_bnode l = Some (v, r) -> suffix r l.
+Proof.
+  intros l v r H. destruct l as [|u [|k [|c l]]]; try discriminate. unfold p_bnode in H.
+  destruct ((u =? 95) && (k =? 58) && (pn_chars_u c || is_digit c)); [|discriminate].
+  destruct (span label_char l) as [run rest] eqn:Es. destruct (strip_dots run) as [kk d] eqn:Ed.
+  inversion H; subst. destruct (span_spec _ _ _ _ Es) as [S1 _]. destruct (strip_dots_spec _ _ _ Ed) as [D1 _]. subst.
+  exists (u :: k :: c :: kk). cbn [app]. rewrite <- app_assoc. reflexivity.
+Qed.
+Lemma p_subject_suffix : forall l t r, p_subject l = Some (t, r) -> suffix r l.
+Proof.
+  intros l t r H. unfold p_subject in H. destruct (starts_with 60 l).
+  - destruct (p_iriref l) as [[v r']|] eqn:E; [|discriminate]. inversion H; subst. eapply p_iriref_suffix; eauto.
+  - destruct (starts_with 95 l); [|discriminate].
+    destruct (p_bnode l) as [[v r']|] eqn:E; [|discriminate]. inversion H; subst. eapply p_bnode_suffix; eauto.
+Qed.
+Lemma subtags_suffix : forall n l st r, subtags n l = (st, r) -> suffix r l.
+Proof.
+  induction n as [|n IH]; intros l st r H; simpl in H; [inversion H; apply suffix_refl|].
+  destruct l as [|c l]; [inversion H; apply suffix_refl|].
+  destruct (c =? 45); [|inversion H; apply suffix_refl].
+  destruct (span is_alnum l) as [run rest] eqn:Es. destruct run as [|x run]; [inversion H; apply suffix_refl|].
+  destruct (subtags n rest) as [more rest'] eqn:Et. inversion H; subst.
+  destruct (span_spec _ _ _ _ Es) as [S1 _]. apply suffix_cons. eapply suffix_trans; [eapply IH; eauto|].
+  subst l. exists (x :: run). reflexivity.
+Qed.
+Lemma p_langtag_suffix : forall l lg r, p_langtag l = Some (lg, r) -> suffix r l.
+Proof.
+  intros l lg r H. unfold p_langtag in H. destruct (span is_alpha l) as [prim r0] eqn:Es.
+  destruct prim as [|x prim]; [discriminate|]. destruct (subtags (length r0) r0) as [st r'] eqn:Et. inversion H; subst.
+  destruct (span_spec _ _ _ _ Es) as [S1 _]. eapply suffix_trans; [eapply subtags_suffix; eauto|].
+  subst l. exists (x :: prim). reflexivity.
+Qed.
+Lemma p_object_suffix : forall l t r, p_object l = Some (t, r) -> suffix r l.
+Proof.
+  intros l t r H. unfold p_object in H. destruct (starts_with 34 l); [|eapply p_subject_suffix; eauto].
+  apply suffix_tl. unfold p_literal_tail in H.
+  destruct (str_body (S (length (tl l))) (tl l)) as [[lex r1]|] eqn:Eb; [|discriminate].
+  destruct (str_body_raw _ _ _ _ Eb) as [raw [H1 _]].
+  assert (S1 : suffix r1 (tl l)). { rewrite H1. exists (raw ++ [34]). rewrite <- app_assoc. reflexivity. }
+  eapply suffix_trans; [|exact S1]. unfold p_lit_suffix in H.
+  destruct r1 as [|c r2]; [inversion H; apply suffix_refl|].
+  destruct (c =? 64).
+  - destruct (p_langtag r2) as [[lg r4]|] eqn:El; [|discriminate]. inversion H; subst.
+    apply suffix_cons. eapply p_langtag_suffix; eauto.
+  - destruct ((c =? 94) && starts_with 94 r2); [|inversion H; apply suffix_refl].
+    destruct (p_iriref (tl r2)) as [[d r4]|] eqn:Ei; [|discriminate]. inversion H; subst.
+    apply suffix_cons. apply suffix_tl. eapply p_iriref_suffix; eauto.
+Qed.
+Lemma p_end_suffix : forall r r5, p_end r = Some r5 -> suffix r5 r.
+Proof.
+  intros r r5 H. unfold p_end in H. destruct (skip_ws r) as [|c r'] eqn:E; [discriminate|].
+  destruct (c =? 46); [|discriminate]. inversion H; subst.
+  eapply suffix_trans; [|apply skip_ws_suffix]. rewrite E. apply suffix_cons, suffix_refl.
+Qed.
+Lemma p_statement_suffix : forall nq l q rest, p_statement nq l = Some (q, rest) -> suffix rest l.
+Proof.
+  intros nq l q rest H. unfold p_statement in H.
+  destruct (p_subject (skip_ws l)) as [[s r1]|] eqn:Es; [|discriminate].
+  destruct (p_predicate (skip_ws r1)) as [[p r2]|] eqn:Ep; [|discriminate].
+  destruct (p_object (skip_ws r2)) as [[o r3]|] eqn:Eo; [|discriminate].
+  assert (S3 : suffix r3 l).
+  { eapply suffix_trans; [eapply p_object_suffix; eauto|]. eapply suffix_trans; [apply skip_ws_suffix|].
+    unfold p_predicate in Ep. destruct (p_iriref (skip_ws r1)) as [[pv r2']|] eqn:Ei; [|discriminate]. inversion Ep; subst.
+    eapply suffix_trans; [eapply p_iriref_suffix; eauto|]. eapply suffix_trans; [apply skip_ws_suffix|].
+    eapply suffix_trans; [eapply p_subject_suffix; eauto|]. apply skip_ws_suffix. }
+  destruct (p_end r3) as [r5|] eqn:Ee.
+  - inversion H; subst. eapply suffix_trans; [eapply p_end_suffix; eauto|exact S3].
+  - destruct nq; [|discriminate].
+    destruct (p_subject (skip_ws r3)) as [[g r5]|] eqn:Eg; [|discriminate].
+    destruct (p_end r5) as [r6|] eqn:Ee6; [|discriminate]. inversion H; subst.
+    eapply suffix_trans; [eapply p_end_suffix; eauto|]. eapply suffix_trans; [eapply p_subject_suffix; eauto|].
+    eapply suffix_trans; [apply skip_ws_suffix|exact S3].
+Qed.
+
+(* ---- one line, as readline() hands it to parseline(): no CR, no LF *)
+Definition no_eol (l : str) : bool := forallb (fun c => negb (is_eol c)) l.
+Lemma no_eol_suffix : forall r l, suffix r l -> no_eol l = true -> no_eol r = true.
+Proof. intros r l [p H] N. subst. unfold no_eol in *. rewrite forallb_app in N. apply andb_true_iff in N. tauto. Qed.
+
+Lemma skip_ws_kf : forall nq l, line_kf nq (skip_ws l) = line_kf nq l.
+Proof. intros nq l. unfold line_kf. rewrite skip_ws_idem. reflexivity. Qed.
+Lemma rd_parseline_skip : forall nq l, rd_parseline nq (skip_ws l) = rd_parseline nq l.
+Proof. intros nq l. unfold rd_parseline. rewrite skip_ws_idem. reflexivity. Qed.
+Lemma p_statement_skip : forall nq l, p_statement nq (skip_ws l) = p_statement nq l.
+Proof. intros nq l. unfold p_statement. rewrite skip_ws_idem. reflexivity. Qed.
+
+Theorem reads_legal_line : forall nq l q,
+  no_eol l = true -> strict_parse nq l = Some q -> line_kf nq l = 0 -> rd_parseline nq l = Some (Some q).
+Proof.
+  intros nq l q N H K. unfold strict_parse, strict_doc in H.
+  destruct (p_doc (S (length l)) nq l) as [[|q' [|q'' qs]]|] eqn:Ed; try discriminate. inversion H; subst q'. clear H.
+  cbn [p_doc] in Ed.
+  destruct (skip_ws l) as [|c r] eqn:El; [discriminate|].
+  assert (Nc : no_eol (c :: r) = true) by (rewrite <- El; eapply no_eol_suffix; [apply skip_ws_suffix|exact N]).
+  assert (Ec : is_eol c = false).
+  { unfold no_eol in Nc. cbn [forallb] in Nc. apply andb_true_iff in Nc. destruct Nc as [Nc _]. apply negb_true_iff in Nc. exact Nc. }
+  rewrite Ec in Ed.
+  destruct (c =? 35) eqn:E35.
+  { exfalso. assert (Dn : drop_to_eol r = []).
+    { assert (Nr : no_eol r = true) by (eapply no_eol_suffix; [apply suffix_cons, suffix_refl|exact Nc]).
+      clear -Nr. induction r as [|x r IH]; [reflexivity|]. unfold no_eol in Nr. cbn [forallb] in Nr.
+      apply andb_true_iff in Nr. destruct Nr as [A B]. apply negb_true_iff in A. simpl. rewrite A. apply IH. exact B. }
+    rewrite Dn in Ed. destruct (length l); simpl in Ed; discriminate. }
+  destruct (p_statement nq (c :: r)) as [[q0 rest]|] eqn:Es; [|discriminate].
+  assert (Sr : suffix (skip_comment rest) (c :: r)).
+  { eapply suffix_trans; [apply skip_comment_suffix|eapply p_statement_suffix; eauto]. }
+  destruct (skip_comment rest) as [|c' r4] eqn:Ec'.
+  - inversion Ed; subst q0.
+    rewrite <- rd_parseline_skip, El. apply (reads_legal_statement nq (c :: r) q rest Es Ec').
+    rewrite <- El, skip_ws_kf. exact K.
+  - exfalso. pose proof (no_eol_suffix _ _ Sr Nc) as Nn. unfold no_eol in Nn. cbn [forallb] in Nn.
+    apply andb_true_iff in Nn. destruct Nn as [A _]. apply negb_true_iff in A. rewrite A in Ed. discriminate.
+Qed.
